@@ -390,6 +390,14 @@ def step (_ : Unit) (ws : List String) : Unit × String :=
       let len := bytes.length
       if len != SafeNet.WireCbor.replicateRequestSize n b then some "closed-form-differs" else
       some s!"len={len} fnv={hex16 (fnvList fnvInit bytes)} read={if len ≤ SafeNet.WireCbor.requestCap then "ok" else "err"}"
+    | ["crepl", n, b, c] => do
+      let n ← n.toNat?; let c ← c.toNat?
+      let b ← match unhex b with | some [b] => some b | _ => none
+      if n > 25165824 || c > 25165824 then none else
+      let bytes := SafeNet.WireCbor.writeMsg (SafeNet.WireCbor.mixedReplicate c n b)
+      let len := bytes.length
+      if len != SafeNet.WireCbor.mixedRequestSize c n b then some "closed-form-differs" else
+      some s!"len={len} fnv={hex16 (fnvList fnvInit bytes)} read={if len ≤ SafeNet.WireCbor.requestCap then "ok" else "err"}"
     -- a response with an n-byte payload: prefix and payload header from the model's writer (`fill_response_bytes`), the
     -- payload hashed without building it; the read verdict is `response_cap_boundary`
     | ["cresp", n, b] => do
